@@ -20,6 +20,7 @@ Not decided: numerical agreement with an independent ridge solve.
 """
 from .. import protocols
 from ..harness import arr, integer, scalar
+from .. import tq
 from ..interp import State
 from ..terms import T, V, vconst
 
@@ -99,7 +100,7 @@ def check(ctx):
             ok = len(news) == 1 and news[0]["kwargs"].get("n_splits") is not None and news[0]["kwargs"]["n_splits"].const == 2 and news[0]["kwargs"]["shuffle"].term == h["shuffle"].term and news[0]["kwargs"]["random_state"].term == h["random_state"].term
             ctx.ob("R-FOLDS", f"default folds = KFold(2, shuffle, random_state) [{cfg}]", ok, f"{[{k: repr(v.term) for k, v in e['kwargs'].items()} for e in news]}", ctx.site(P.method(cls, 'fit')), cfg)
             na = seen.get("next_arg")
-            ctx.ob("R-FOLDS", f"first split of cv.split(X) [{cfg}]", na is not None and ".split(X)" in repr(na.term), f"{None if na is None else repr(na.term)[:120]}", ctx.site(P.method(cls, 'fit')), cfg)
+            ctx.ob("R-FOLDS", f"first split of cv.split(X) [{cfg}]", na is not None and any(x.op == "mcall" and x.args[1] == "split" and x.args[2] and x.args[2][0] == X.term for x in tq.walk_all(na.term)), f"{None if na is None else repr(na.term)[:120]}", ctx.site(P.method(cls, 'fit')), cfg)
             # predict
             Xv = arr("Xv", "V", "M")
             lo = len(I.events)
@@ -122,4 +123,4 @@ def check(ctx):
     o = ctx.construct(I, st, cls, alphas=arr("alphas", "G"), cv=extobj("user_cv", "sklearn.model_selection.KFold"))
     ctx.call_method(I, st, o, "fit", arr("X", "N", "M"), arr("y", "N", "P"))
     na = seen.get("next_arg")
-    ctx.ob("R-FOLDS", "user cv: first split of check_cv(cv).split(X)", na is not None and "check_cv" in repr(na.term) and "user_cv" in repr(na.term) and ".split(X)" in repr(na.term), f"{None if na is None else repr(na.term)[:160]}", ctx.site(P.method(cls, "fit")))
+    ctx.ob("R-FOLDS", "user cv: first split of check_cv(cv).split(X)", na is not None and tq.has_sym(na.term, "user_cv") and any(x.op == "call" and "check_cv" in str(x.args[0]) for x in tq.walk_all(na.term)) and tq.has_mcall(na.term, "split"), f"{None if na is None else repr(na.term)[:160]}", ctx.site(P.method(cls, "fit")))
